@@ -99,6 +99,8 @@ def item_label(item):
         return f"b{item['b']}"
     if "n" in item:
         return f"n{item['n']}"
+    if "v" in item:
+        return f"v{item['v']}"
     if "i" in item:
         return f"u{item['i']}/{item.get('mode', 'serial')}/{item.get('workers')}" + (f"/prior{item['prior']}" if item.get("prior") else "")
     return json.dumps(item, sort_keys=True)[:80]
